@@ -687,6 +687,70 @@ fn after_caught_panic_history(rng: &mut Rng, rep: &Report) -> Option<u64> {
     Some(Fnv::new().str("after-panic").u64(how).finish() | 1)
 }
 
+/// Many short rounds against one persistent partner thread: the owner is dropped on this thread and
+/// a force-flush guard on the partner at the same instant (both released by a spinning gate), while
+/// a straggling flush guard stays alive. Once BOTH drops have returned the entry is due: it must be
+/// at the sink before the straggler is touched. (Thread spawns per round would spread the two
+/// drops microseconds apart; orderings that only differ in what each core still has in its store
+/// buffer need them nanoseconds apart, thousands of times.)
+fn owner_vs_force_rounds(rng: &mut Rng, n: usize, rep: &Report) -> bool {
+    use std::sync::atomic::{AtomicBool, Ordering::SeqCst};
+    let slot: std::sync::Mutex<Option<ForceFlushGuard>> = std::sync::Mutex::new(None);
+    let gate = Barrier::new(2);
+    let quit = AtomicBool::new(false);
+    let mut ok = true;
+    std::thread::scope(|s| {
+        s.spawn(|| loop {
+            gate.wait(); // a round is set up (or quit)
+            if quit.load(SeqCst) {
+                break;
+            }
+            let f = slot.lock().unwrap().take().expect("force guard published");
+            gate.wait(); // go
+            drop(f);
+            gate.wait(); // both drops returned
+        });
+        for _ in 0..n {
+            let sink = CountingSink::new();
+            let tok = rng.below(1 << 40) + 1000;
+            let owner: Owner = Work { a: tok, b: tok + 1 }.append_on_drop(sink.clone());
+            let straggler: FlushGuard = owner.flush_guard();
+            let second = if rng.bool() { Some(owner.flush_guard()) } else { None };
+            *slot.lock().unwrap() = Some(owner.force_flush_guard());
+            let spins = rng.below(40);
+            gate.wait();
+            gate.wait();
+            for _ in 0..spins {
+                std::hint::spin_loop();
+            }
+            drop(owner);
+            gate.wait();
+            let at_due = sink.snapshot();
+            drop(second);
+            drop(straggler);
+            let at_end = sink.take();
+            rep.eval();
+            progress_tick();
+            let content_ok = at_end.first().is_some_and(|a| a.u64_field("a") == Some(tok) && a.u64_field("b") == Some(tok + 1));
+            if at_due.len() != 1 || at_end.len() != 1 || !content_ok {
+                let kind = if at_end.len() > 1 { "appended-twice" } else if at_end.is_empty() { "never-appended" } else if at_due.is_empty() { "not-appended-when-due" } else { "content-differs" };
+                rep.violation(kind, json!({"what": "owner dropped on one thread and a force-flush guard on another at the same instant, one or two flush guards still alive: once both drops have returned the entry must be at the sink (exactly once, with the owner's last values)",
+                    "appended_when_both_drops_had_returned": at_due.len(), "appended_after_the_remaining_flush_guards_were_dropped": at_end.len(), "second_flush_guard": second_was(&at_end), "expected_tokens": [tok, tok + 1]}));
+                ok = false;
+                break;
+            }
+            rep.count("owner_vs_force_guard_rounds", 1);
+        }
+        quit.store(true, SeqCst);
+        gate.wait();
+    });
+    ok
+}
+
+fn second_was(_a: &[checks::uow_util::Appended]) -> &'static str {
+    "present in half of the rounds"
+}
+
 fn main() {
     let args = Args::parse();
     let rep = Report::new("C06", &args);
@@ -718,7 +782,7 @@ fn main() {
         "(a) EVERY single-thread history over one owner (mutated with fresh tokens), up to 3 handles, up to 3 flush guards, up to 2 force-flush guards (guards may be created \
          after a force-flush guard was dropped), at most N objects: after every operation the number of appends must equal the reference condition \
          'owner and all handles dropped and (all flush guards dropped or some force-flush guard dropped)'; (b) random histories whose remaining drops are dealt to 2-4 threads \
-         released by a barrier with perturbation at the keep-alive hook points: exactly one append, not before the start of the drops every linearization needs, content = last tokens. \
+         released by a barrier with perturbation at the keep-alive hook points: exactly one append, not before the start of the drops every linearization needs, not later than due, content = last tokens; (c) tens of thousands of short rounds in which the owner and a force-flush guard are dropped on two threads at the same instant with a flush guard outstanding: the entry is at the sink once both drops have returned. \
          distinct = distinct operation sequences / (prefix, thread assignment, triggering drop)",
     );
     let max_objects = args.get_u64("objects", args.by_tier(5, 6)) as u32;
@@ -777,6 +841,12 @@ fn main() {
                     let mut rng = Rng::derive(args.seed, lane);
                     while start.elapsed() < budget && rep.violation_count() == 0 {
                         rep.eval();
+                        if rng.below(300) == 0 {
+                            if !owner_vs_force_rounds(&mut rng, 2500, rep) {
+                                return;
+                            }
+                            continue;
+                        }
                         if rng.below(50) == 0 {
                             if let Some(sig) = after_caught_panic_history(&mut rng, rep) {
                                 rep.distinct(sig);
